@@ -1337,7 +1337,8 @@ def run(ctx):
     # 1. the invariants can fail
     spec_negative_controls(ctx)
     # 2. design level + emission: all buffers x all generator scripts x all single corruptions.
-    #    thorough: the full bound is model-checked without emission; the cases that are replayed
+    #    thorough: the full bound is model-checked without emission (and without StructureConsistent,
+    #    which only matters for emitted cases and is checked in their configurations); the cases that are replayed
     #    come from the two largest sub-bounds (4 lines x 2 commands, 3 lines x 3 commands)
     if quick:
         emit = [(cfg, 4)]
